@@ -1622,7 +1622,15 @@ class Server:
             # a connection accepted while the session is being torn down
             # would never be closed by anybody
             session_ended = connection.command_connection.writer.is_closing()
-            if session_ended or connection.future.data_connection.done():
+            pending = connection.future.data_connection.done()
+            if pending and connection.data_connection.reader.at_eof():
+                # the peer has given the connection it made earlier up (the
+                # transfer it was for has been refused): this is the one
+                # the next transfer is meant to use
+                connection.data_connection.close()
+                del connection.data_connection
+                pending = False
+            if session_ended or pending:
                 writer.close()
             else:
                 connection.data_connection = ThrottleStreamIO(
@@ -1681,7 +1689,15 @@ class Server:
             # a connection accepted while the session is being torn down
             # would never be closed by anybody
             session_ended = connection.command_connection.writer.is_closing()
-            if session_ended or connection.future.data_connection.done():
+            pending = connection.future.data_connection.done()
+            if pending and connection.data_connection.reader.at_eof():
+                # the peer has given the connection it made earlier up (the
+                # transfer it was for has been refused): this is the one
+                # the next transfer is meant to use
+                connection.data_connection.close()
+                del connection.data_connection
+                pending = False
+            if session_ended or pending:
                 writer.close()
             else:
                 connection.data_connection = ThrottleStreamIO(
